@@ -76,6 +76,23 @@ pub fn ev(name: &str, fields: &str) {
     }
 }
 
+/// Wall-clock time is an input of the progress report only: RBP_VERIF_STALL="height:millis[,height:millis...]"
+/// makes the run pause before the block at `height` is handed to the callback.
+pub fn stall(height: u64) {
+    if let Ok(spec) = std::env::var("RBP_VERIF_STALL") {
+        for item in spec.split(',') {
+            let mut it = item.split(':');
+            if let (Some(h), Some(ms)) = (it.next(), it.next()) {
+                if h.parse::<u64>().ok() == Some(height) {
+                    if let Ok(ms) = ms.parse::<u64>() {
+                        std::thread::sleep(std::time::Duration::from_millis(ms));
+                    }
+                }
+            }
+        }
+    }
+}
+
 /// Renders a string as JSON string literal
 pub fn js(s: &str) -> String {
     let mut o = String::with_capacity(s.len() + 2);
